@@ -106,6 +106,14 @@ let rows_of_dense (m : Crs.crs) = List.map (fun r -> List.map snd r) m.Crs.rows
    matrix (column index out of range) is reported like harness/drv_composite.cpp does *)
 let cpr_pp (app : Crs.crs) =
   exact_inverse_of ~what:"singular_pressure_matrix" (nrows app) (fun v -> C.mv sc app v)
+(* block value type: App->set_nonzeros(K->nnz) sizes App by ALL entries of K while its row
+   pointers end at K->ptr[np]: with active_rows < n the nnz field disagrees with ptr[nrows]
+   (vq::show_crs reports that as BADCRS nnz; the list-of-rows model has no such field) *)
+let show_app_block (kb : A.block A.gcrs) (app : Crs.crs) =
+  let np = nrows app in
+  let extra = List.fold_left (+) 0 (List.mapi (fun i r -> if i >= np then List.length r else 0) kb.A.grows) in
+  if not (Crs.wf sc app) then "BADCRS col-out-of-range"
+  else if np > 0 && extra > 0 then "BADCRS nnz" else show_crs ~sorted:true app
 let show_ops n kmat (ops : Cpr.cpr_ops) sp =
   let app = ops.Cpr.c_app in
   if not (Crs.wf sc app) || nrows app <> app.Crs.ncols then raise (Model_exc "runtime_error pressure_matrix_column_out_of_range");
@@ -233,7 +241,7 @@ let () =
     | "block_dummy" ->
       let kb = A.to_gcrs (A.block_adapter sc bs (A.crs_view sc k)) in
       let ops = Cpr.cprb_make sc bs (active / bs) kb junk in
-      show_ops n (A.unblock sc bs kb) ops (fun f -> f) ^ " " ^ show_crs ~sorted:true ops.Cpr.c_app
+      show_ops n (A.unblock sc bs kb) ops (fun f -> f) ^ " " ^ show_app_block kb ops.Cpr.c_app
     | "update_dummy" ->
       let ops = Cpr.cpr_make sc bs active k junk in
       let before = show_ops n ks ops (fun f -> f) in
@@ -254,6 +262,6 @@ let () =
     | "block" ->
       let kb0 = A.to_gcrs (A.block_adapter sc bs (A.crs_view sc k)) in
       let ops = CprDrs.drsb_make sc bs (active / bs) kb0 eps_dd eps_ps w in
-      show_ops n (A.unblock sc bs kb0) ops (fun f -> f) ^ " " ^ show_crs ~sorted:true ops.Cpr.c_app
+      show_ops n (A.unblock sc bs kb0) ops (fun f -> f) ^ " " ^ show_app_block kb0 ops.Cpr.c_app
     | "update" -> "CRASH null_App"
     | _ -> raise (Model_exc "invalid_argument"))
